@@ -54,6 +54,11 @@ CHECKS = {
          "All 64 subsets of 6 keys x 100 bound pairs x every limit 0..n+1 x 3 forms, unary and streamed; every content of up to 3 (quick) / 5 (thorough) pairs with sizes from {1KiB,1MiB,2MiB-1KiB,2MiB} for size cuts, per-message size/flags/counts, and a write between any two pulls of a stream.",
          "Trusted: refkv range semantics; vtproto SizeVT as the wire size. The KV gRPC layer above the FSM is exercised by C10/C16.",
          "DESIGN.md section 4, C09"),
+ "C10": ("model_checking",
+         "stateless interleaving exploration (cooperative scheduler, unbounded preemptions, visited-state pruning) of real ActiveTable calls over a simulated Raft host with real FSM replicas",
+         "ALL interleavings of 2 clients (thorough: 3) running 1-2 operations from 8 kinds (put, delete-range, write txn, txn with empty taken branch, read-only txn, linearizable/serializable range, linearizable iterator) on colliding keys, bound to an eager or a lagging replica (batch size of every apply call is a data choice); the log is ground truth: revisions non-zero and = log index, mutation responses = model replay in index order, linearizable reads within [commit@invoke, commit@return], serializable reads at some earlier-or-equal prefix.",
+         "Trusted: the simulated host's rendering of dragonboat's contract (append = commit, answer after the proposing replica applied, read index captured at invocation); refkv. Real multi-node timing inside dragonboat is out of reach.",
+         "DESIGN.md section 4, C10"),
  "C11": ("model_checking",
          "explicit-state BFS of the real queue loop inside testing/synctest bubbles (fake clock, quiescence = wedge detector) + exhaustive end-to-end event sequences",
          "Part A: for 6 (thorough 8) waiter configurations BFS to depth 9 (thorough 12) over {add, cancel, notify, sweep tick, caller reads}; every path replayed in a fresh bubble against the real IndexNotificationQueue.Run; probes Len/Notify/Add after every event; visited set on the complete concrete state. Part B: every event sequence up to length 5 (thorough 6) over 10 events through the real ForwardingKVServer, real leader/follower FSMs and the real queue wired as cmd/follower.go: an acknowledged write is readable on the node, no caller keeps waiting once its revision is applied.",
